@@ -2,9 +2,9 @@
 use crate::core::f64_to_bits;
 use crate::rng::Rng;
 
-pub const CLASSES: [&str; 14] = [
+pub const CLASSES: [&str; 15] = [
     "uniform", "lattice", "allequal", "twovalued", "duppoints", "euclid", "geomline", "blobs", "sorted",
-    "revsorted", "magnitude", "negmixed", "colmajor", "linewalk",
+    "revsorted", "magnitude", "negmixed", "colmajor", "linewalk", "shrinkline",
 ];
 
 /// Points on a line with strictly growing gaps, observation 0 leftmost, the others numbered so that a
@@ -111,6 +111,28 @@ pub fn matrix(rng: &mut Rng, class: &str, n: usize) -> Vec<f64> {
             }
             if rng.below(2) == 0 {
                 pts.reverse();
+            }
+            euclid(&pts)
+        }
+        "shrinkline" => {
+            // tie-free points on a line whose gaps shrink by a jittered factor: from the wide end the
+            // nearest-neighbour chain runs through ALL observations before the first merge (depth n)
+            // and is then unwound completely; numbered wide-end-first, narrow-end-first, or in blocks
+            let mut x = 0.0f64;
+            let mut gap = 1000.0f64;
+            let mut pts = vec![];
+            for _ in 0..n {
+                pts.push(vec![x]);
+                x += gap;
+                gap *= 0.72 + 0.2 * rng.unit();
+            }
+            match rng.below(4) {
+                0 => pts.reverse(),
+                1 => {
+                    let k = rng.range(1, n.max(2) - 1).min(n);
+                    pts.rotate_left(k % n.max(1));
+                }
+                _ => {}
             }
             euclid(&pts)
         }
